@@ -28,6 +28,7 @@ fn main() {
             "c04" => c04::run(&args, rep),
             "c01" => c02::run_leg(&args, rep, "C01"),
             "c07" => c02::run_leg(&args, rep, "C07"),
+            "c10" => c02::run_leg(&args, rep, "C10"),
             "c19" => c19::run(&args, rep),
             "c15" => c15::run(&args, rep),
             "c17" => c17::run(&args, rep),
